@@ -311,7 +311,10 @@ def module_source(m):
 
 def write_package(pkg, base):
     """returns {stem: path} of the files the glob of the selector will return (unordered)."""
+    import shutil
     d = pkg_dir(pkg, base)
+    shutil.rmtree(os.path.join(base, pkg["name"] + "_top"), ignore_errors=True)
+    shutil.rmtree(os.path.join(base, pkg["name"]), ignore_errors=True)
     if pkg["kind"] == "missing":
         return d
     if pkg["dotted"]:
